@@ -436,3 +436,28 @@ def run(ctx: Ctx) -> None:
     ctx.sample({"family": meta[0]["family"], "history": meta[0]["history"], "events": clean[0][:3]})
     ctx.note(f"{len(clean)} histories ({sum(len(t) for t in clean)} executions of the body; {reexec} with re-executions; "
              f"{points} line points in concurrent blocks; DFS {ctx.extra['dfs']}) validated by TLC in {r.wall_s:.1f}s; flags: {nflag}")
+
+
+def replay(ctx: Ctx, data: dict[str, Any]) -> int:
+    """Re-run one recorded re-execution history (with the schedule of its concurrent blocks)."""
+    h = [tuple(x) for x in data["history"]]
+    sch = data.get("schedule")
+    ref = None
+    if sch is None:
+        ev, _ = run_history(data["family"], h)
+    else:
+        ref, _ = run_history(data["family"], h)
+        pol = (lambda: sched.Replay(sch)) if isinstance(sch, list) else (lambda: sched.seeded(int(str(sch)[4:]), 0.3))
+        ev, _ = run_history(data["family"], h, policy_factory=pol)
+    FIELDS = ("wf", "attempt", "vals", "subs", "recorded", "subcount", "foreign")
+    tr = [{k: e[k] for k in FIELDS} for e in with_foreign(ev, ref)]
+    verdicts, _ = tlc.validate_traces("WorkflowTrace", "WorkflowTrace.cfg", [tr], timeout=600)
+    v = verdicts[0]
+    for k, e in enumerate(tr, start=1):
+        mark = " <== " + ",".join(sorted({f for s_, f in v.flags if s_ == k})) if any(s_ == k for s_, _f in v.flags) else ""
+        print(f"  {k:3d} wf={e['wf']} attempt={e['attempt']} vals={e['vals'][:4]}{mark}")
+    if v.flags:
+        print(f"VIOLATION property=C18 replay={ctx.prop}: formulas {sorted({f for _s, f in v.flags})}")
+        return 1
+    print("  the history no longer violates a formula")
+    return 0
